@@ -538,9 +538,18 @@ func reifyMergeValue(
 		if err != nil {
 			return reflect.Value{}, raiseExpectedObject(opts.opts, val)
 		}
+		if !old.CanSet() {
+			// a struct held by value in an interface can not be updated in
+			// place: unpack into a copy of it, the copy is the new value
+			old = addressableCopy(old)
+			return old, reifyStruct(opts.opts, old, sub)
+		}
 		return oldValue, reifyStruct(opts.opts, old, sub)
 
 	case reflect.Array:
+		if !old.CanSet() {
+			old = addressableCopy(old)
+		}
 		return reifyArray(opts, old, baseType, val)
 
 	case reflect.Slice:
@@ -548,6 +557,12 @@ func reifyMergeValue(
 	}
 
 	return reifyPrimitive(opts, val, t, baseType)
+}
+
+func addressableCopy(v reflect.Value) reflect.Value {
+	tmp := reflect.New(v.Type()).Elem()
+	tmp.Set(v)
+	return tmp
 }
 
 func mergeFieldConfig(opts fieldOptions, to, from *Config) Error {
